@@ -251,6 +251,10 @@ func parseContracts(path string) (*Contracts, error) {
 					return nil, fmt.Errorf("%s:%d: loop needs an ordinal", path, ln)
 				}
 				kind, r3 := splitWord(r2)
+				if i := strings.Index(kind, "["); i > 0 {
+					r3 = kind[i:] + " " + r3
+					kind = kind[:i]
+				}
 				if kind != "invariant" && kind != "decreases" {
 					return nil, fmt.Errorf("%s:%d: loop clause %q", path, ln, kind)
 				}
